@@ -141,7 +141,49 @@ def d11_probe(sc):
     return {"probe": "d11", "bad": [] if got == ["ran"] else [got]}
 
 
+def copy_attach_probe(sc):
+    """a machine and a (shallow or deep) copy of it; a listener is attached to only one of the two; the
+    other one - and any later copy of the other one - must never invoke it"""
+    import random
+    from statemachine import State, StateMachine
+    rng = random.Random(sc["seed"])
+
+    class M(StateMachine):
+        s0 = State(initial=True)
+        s1 = State()
+        go = s0.to(s1) | s1.to(s0)
+
+    class L:
+        def __init__(self):
+            self.calls = 0
+
+        def after_go(self):
+            self.calls += 1
+    bad = []
+    with warnings.catch_warnings():
+        warnings.simplefilter("ignore")
+        a = M(listeners=[L()])
+        if rng.random() < 0.5:
+            a.send("go")
+        b_ = (copy.copy if sc["first"] == "copy" else copy.deepcopy)(a)
+        x = L()
+        with_x, without = (b_, a) if sc["side"] == "copy" else (a, b_)
+        with_x.add_listener(x)
+        later = [(copy.deepcopy if rng.random() < 0.7 else copy.copy)(without) for _ in range(rng.randint(1, 2))]
+        for m in [without] + later:
+            m.send("go")
+            m.send("go")
+        if x.calls:
+            bad.append(f"a listener attached to one machine only was invoked {x.calls} time(s) by the other / its copies")
+        with_x.send("go")
+        if x.calls != 1:
+            bad.append(f"the machine it was attached to invoked it {x.calls} time(s) for one event")
+    return {"probe": "copy_attach", "bad": bad}
+
+
 def run_impl(sc):
+    if sc.get("probe") == "copy_attach":
+        return copy_attach_probe(sc)
     if sc.get("probe") == "pair":
         sc2 = dict(sc, ops=[op for op in sc["ops"] if op[0] in ("construct", "send")])
         alone = eng.run_impl(sc2)
@@ -161,6 +203,9 @@ def coq_case(sc, obs):
 
 
 def render_source(sc):
+    if sc.get("probe") == "copy_attach":
+        return (f"# probe: a = M(listeners=[L()]); b = copy.{sc['first']}(a); x = L(); attach x to the {sc['side']} only; "
+                "deep / shallow copies of the other one are made and driven: x must never be invoked by them\n")
     if sc.get("probe") == "d11":
         return "# probe: listener with `async def after_go` added with add_listener to a machine without coroutine callbacks\n"
     return eng.render_source(sc) + (f"\n# probe: a second instance with other listeners is driven in between\n" if sc.get("probe") else "")
@@ -180,9 +225,13 @@ def generate(rng, tier):
         sc["probe"] = "pair"
         pr.append(sc)
     pr.append({"probe": "d11"})
+    for k in range(24):
+        pr.append({"probe": "copy_attach", "seed": rng.randrange(10 ** 6), "first": ["copy", "deepcopy"][k % 2],
+                   "side": ["copy", "original"][(k // 2) % 2]})
     scs += pr
     parts.append(("isolation pairs: two instances of one class with different listener objects driven alternately, "
-                  "A's trace compared with A driven alone; + probe of a coroutine listener added to a sync machine", len(pr)))
+                  "A's trace compared with A driven alone; + probe of a coroutine listener added to a sync machine; + probes "
+                  "where a listener is attached to only one of a machine and its shallow / deep copy", len(pr)))
     return scs, parts
 
 
